@@ -27,7 +27,10 @@ Occupied(S, P, n) == Cardinality({(n * x) \div (2 * P) : x \in S})
 Baseline(times) == Max(times) - Min(times)
 
 \* maximisers of ln_prior + ln_likelihood (1-based row numbers)
-MAPSet(lp, ll) == {i \in DOMAIN lp : \A j \in DOMAIN lp : lp[i] + ll[i] >= lp[j] + ll[j]}
+\* NEG stands for -infinity: a row with a -inf term has posterior -inf whatever the other term is
+NEG == -1000000
+Post(lp, ll, i) == IF lp[i] <= NEG \/ ll[i] <= NEG THEN NEG ELSE lp[i] + ll[i]
+MAPSet(lp, ll) == {i \in DOMAIN lp : \A j \in DOMAIN lp : Post(lp, ll, i) >= Post(lp, ll, j)}
 
 Reflect(times, T) == {T - 1 - k : k \in times}
 =============================================================================
